@@ -138,17 +138,20 @@ class RouterInfoCache:
             if not router_info:
                 if _debug: RouterInfoCache._debug("    - no route info")
             else:
-                for dnet in (dnets or router_info.dnets):
-                    del self.path_info[(snet, dnet)]
-                    if _debug: RouterInfoCache._debug("    - del path: %r -> %r via %r", snet, dnet, router_info.address)
-                del self.routers[snet][address]
+                for dnet in (dnets or list(router_info.dnets)):
+                    if dnet in router_info.dnets:
+                        del router_info.dnets[dnet]
+                        del self.path_info[(snet, dnet)]
+                        if _debug: RouterInfoCache._debug("    - del path: %r -> %r via %r", snet, dnet, router_info.address)
+                if not router_info.dnets:
+                    del self.routers[snet][address]
             return
 
         # look for routers to the dnets
         other_routers = set()
         for dnet in dnets:
             other_router = self.path_info.get((snet, dnet), None)
-            if other_router and (other_router is not existing_router_info):
+            if other_router:
                 other_routers.add(other_router)
 
         # remove the dnets from other router(s) and paths
@@ -174,6 +177,7 @@ class RouterInfoCache:
 
         # update the paths
         for address, router_info in snet_routers.items():
+            router_info.snet = new_snet
             for dnet in router_info.dnets:
                 self.path_info[(new_snet, dnet)] = self.path_info.pop((old_snet, dnet))
 
